@@ -472,3 +472,59 @@ Definition cache_hit (st : tdist) (action : tens) : bool :=
   | Some s => shape_eqb s action && tens_eqb (tmap Tanh s) action
   | None => false
   end.
+
+(* ------------------------------------------------------------------ which batch rows a formula reads *)
+(* parameters shared by all rows (log_std, Box bounds) live in row 0 of their own tensors *)
+Definition is_param (n : string) : bool := String.eqb n "log_std" || String.eqb n "low" || String.eqb n "high".
+
+Fixpoint only_row (b : nat) (e : expr) : bool :=
+  match e with
+  | Var n b' i => is_param n || Nat.eqb b' b
+  | Add x y | Sub x y | MaskFill x y | BernLogP x y => only_row b x && only_row b y
+  | Neg x | Exp x | Tanh x | Atanh x | Clamp1 x | Log1mSq x | NormalEntropy x | BernEntropy x => only_row b x
+  | SumL l | MeanL l | CatEntropy l => forallb (only_row b) l
+  | Scale x y z | NormalLogPdf x y z => only_row b x && only_row b y && only_row b z
+  | LogSoftmaxAt l k => forallb (only_row b) l && only_row b k
+  end.
+
+(* every entry of row b of a rank-2 tensor reads row b only *)
+Definition local2 (t : list (list expr)) : Prop :=
+  forall b, b < length t -> Forall (fun e => only_row b e = true) (nth b t []).
+
+(* ------------------------------------------------------------------ values: any interpretation of the primitives *)
+Section Denote.
+  Variable T : Type.
+  Record prims := {
+    p_add : T -> T -> T; p_sub : T -> T -> T; p_neg : T -> T; p_sum : list T -> T; p_mean : list T -> T;
+    p_exp : T -> T; p_tanh : T -> T; p_atanh : T -> T; p_clamp : T -> T; p_log1msq : T -> T;
+    p_scale : T -> T -> T -> T; p_maskfill : T -> T -> T; p_nlp : T -> T -> T -> T; p_nent : T -> T;
+    p_lsm : list T -> T -> T; p_cent : list T -> T; p_blp : T -> T -> T; p_bent : T -> T }.
+  Variable P : prims.
+  Variable rho : string -> nat -> nat -> T.
+
+  Fixpoint denote (e : expr) : T :=
+    match e with
+    | Var n b i => rho n b i
+    | Add x y => p_add P (denote x) (denote y)
+    | Sub x y => p_sub P (denote x) (denote y)
+    | Neg x => p_neg P (denote x)
+    | SumL l => p_sum P (map denote l)
+    | MeanL l => p_mean P (map denote l)
+    | Exp x => p_exp P (denote x)
+    | Tanh x => p_tanh P (denote x)
+    | Atanh x => p_atanh P (denote x)
+    | Clamp1 x => p_clamp P (denote x)
+    | Log1mSq x => p_log1msq P (denote x)
+    | Scale a b c => p_scale P (denote a) (denote b) (denote c)
+    | MaskFill m x => p_maskfill P (denote m) (denote x)
+    | NormalLogPdf a b c => p_nlp P (denote a) (denote b) (denote c)
+    | NormalEntropy x => p_nent P (denote x)
+    | LogSoftmaxAt l k => p_lsm P (map denote l) (denote k)
+    | CatEntropy l => p_cent P (map denote l)
+    | BernLogP a b => p_blp P (denote a) (denote b)
+    | BernEntropy x => p_bent P (denote x)
+    end.
+
+  Definition tdenote (t : tens) : option (list T) :=
+    match t with T1 v => Some (map denote v) | T2 m => Some (map denote (concat m)) | TErr => None end.
+End Denote.
